@@ -968,7 +968,7 @@ def check_tools(ctx, pair, stats):
     wd.mkdir(exist_ok=True)
     strings, _ = special_strings(ctx, 2)
     names = [s for s in strings if valid_name(s)]
-    ntrees = 18 if ctx.quick() else 300
+    ntrees = 24 if ctx.quick() else 300
     trees = gen_trees(ctx, ntrees, maxnodes=14 if ctx.quick() else 30, names=names, need_file=True)
     roots = gen_roots(ctx, names, ntrees)
     jobs = []
